@@ -90,6 +90,16 @@ func lenOf(x ssa.Value) lin {
 				hi.off -= lo.off
 				return hi
 			}
+			if sameBase(lo, hi) {
+				return lin{off: hi.off - lo.off}
+			}
+		}
+		if s.High == nil && s.Low != nil {
+			if lo := linOf(s.Low); lo.base == nil {
+				l := lenOf(s.X)
+				l.off -= lo.off
+				return l
+			}
 		}
 		if s.High == nil && s.Low == nil {
 			return lenOf(s.X)
